@@ -1,7 +1,10 @@
 #!/bin/bash
 # Build the Go side of the harness from the repository's current working tree (never writes into it).
+#   harness/build.sh [Cnn ...]     builds build/runimpl-Cnn for the named properties (default: all) + build/genconsts
+# Each property is its own binary: cmd/runimpl/cNN.go + every shared file of cmd/runimpl (those not
+# named cNN.go) + the cMM.go files named on a line `// verif:needs cMM ...` in cNN.go.  A half-written
+# driver of one property therefore cannot break the build of another.
 # The repository is /repo unless VERIF_REPO names another checkout (used by ./mutcheck only).
-set -e
 cd "$(dirname "$0")"
 export GOFLAGS=-mod=mod GOPROXY=off GOSUMDB=off GOTOOLCHAIN=local CARGO_NET_OFFLINE=true
 REPO=${VERIF_REPO:-/repo}
@@ -12,7 +15,7 @@ H=$(pwd)
 {
  echo '{"Replace": {'
  first=1
- # overlay/<pkgpath with / replaced by __>__<name>.go.txt  ->  $REPO/<pkgpath>/zz_verif_<name>.go
+ # overlay/<pkgpath with / written as -->__<name>.go.txt  ->  $REPO/<pkgpath>/zz_verif_<name>.go
  for f in overlay/*.go.txt; do
    b=$(basename $f .go.txt)
    case "$b" in *_test) continue;; esac     # in-package test drivers are built by their own scripts
@@ -25,5 +28,29 @@ H=$(pwd)
  echo
  echo '}}'
 } > ../build/overlay.json
-go build -overlay ../build/overlay.json -o ../build/runimpl ./cmd/runimpl
-go build -overlay ../build/overlay.json -o ../build/genconsts ./cmd/genconsts
+rc=0
+go build -overlay ../build/overlay.json -o ../build/genconsts ./cmd/genconsts || rc=1
+shared=$(ls cmd/runimpl/*.go | grep -v '/c[0-9][0-9]\.go$' | grep -v '_test\.go$')
+props="$@"
+[ -n "$props" ] || props=$(ls cmd/runimpl/c[0-9][0-9].go | sed 's#.*/c\([0-9][0-9]\)\.go#C\1#')
+for P in $props; do
+  n=$(echo $P | tr A-Z a-z)
+  f=cmd/runimpl/$n.go
+  [ -f $f ] || { echo "no $f" >&2; rc=1; continue; }
+  needs=$(grep -h '^// verif:needs' $f | sed 's#// verif:needs##')
+  extra=""
+  for d in $needs; do extra="$extra cmd/runimpl/$d.go"; done
+  if ! go build -overlay ../build/overlay.json -o ../build/runimpl-$(echo $P | tr a-z A-Z) $shared $f $extra; then
+    echo "build of runimpl-$P failed" >&2
+    rm -f ../build/runimpl-$(echo $P | tr a-z A-Z)
+    rc=1
+  fi
+done
+cat > ../build/runimpl <<'EOT'
+#!/bin/bash
+# dispatcher: runimpl <Cnn> <tier> <seed> [args]  ->  runimpl-<CNN>
+P=$(echo "$1" | tr a-z A-Z)
+exec "$(dirname "$0")/runimpl-$P" "$@"
+EOT
+chmod +x ../build/runimpl
+exit $rc
